@@ -25,8 +25,19 @@ package main
 
 import (
 	"fmt"
+	"runtime"
 	"runtime/debug"
 )
+
+// histGC collects garbage BETWEEN two histories, every so many of them (never inside one).
+type histGC struct{ n int }
+
+func (g *histGC) between() {
+	g.n++
+	if g.n%1500 == 0 {
+		runtime.GC()
+	}
+}
 
 type histOp struct {
 	desc string
@@ -64,6 +75,14 @@ func histFamily(c *Ctx, family string, mk func() []histOp) {
 			old := debug.SetGCPercent(-1)
 			defer debug.SetGCPercent(old)
 			base := make([]string, n)
+			var gc histGC
+			// alphabets of more than 300 operations: only the perturbing ones are first members
+			firsts := make([]int, 0, n)
+			for i := range ops {
+				if n <= 300 || ops[i].perturbing {
+					firsts = append(firsts, i)
+				}
+			}
 			judge := func(i int, out string, hist string) {
 				if ops[i].oracle != nil {
 					if why := ops[i].oracle(out); why != "" {
@@ -94,8 +113,10 @@ func histFamily(c *Ctx, family string, mk func() []histOp) {
 				}
 			}
 			// depth 2: pairs whose first member belongs to this unit
-			for p := r; p < n; p += R {
+			for fi := r; fi < len(firsts); fi += R {
+				p := firsts[fi]
 				for ci := 0; ci < n; ci++ {
+					gc.between()
 					histOutcome(ops[p].run)
 					out := histOutcome(ops[ci].run)
 					u.Eval(2)
@@ -120,9 +141,17 @@ func histFamily(c *Ctx, family string, mk func() []histOp) {
 						pert = append(pert, i)
 					}
 				}
+				lasts := make([]int, n)
+				for i := range lasts {
+					lasts[i] = i
+				}
+				if len(pert)*len(pert)*n > 3000000 {
+					lasts = pert
+				}
 				for pi := r; pi < len(pert); pi += R {
 					for _, q := range pert {
-						for ci := 0; ci < n; ci++ {
+						for _, ci := range lasts {
+							gc.between()
 							histOutcome(ops[pert[pi]].run)
 							histOutcome(ops[q].run)
 							out := histOutcome(ops[ci].run)
